@@ -505,6 +505,29 @@ def oracle_c14(case, out):
             idx = [m.start() for m in re.finditer(re.escape(hdr), data)]
             if (b"\r\n\r\n" + body) in data:
                 return "c%d: the response to HEAD request #%d carries the body %r" % (c, k, body)
+    # the stream of one connection, response by response: the head written for a HEAD request is followed by the next
+    # response (or nothing), never by body bytes — not its own body, and not bytes left over from an earlier response
+    heads = case.meta.get("heads14")
+    if heads is not None and 0 in conns and not case.meta.get("kf"):
+        data = b"".join(conns[0].wires)
+        pos = 0
+        for ri, is_head in enumerate(heads):
+            if pos >= len(data):
+                break
+            if not data.startswith(b"HTTP/", pos):
+                return "c0: response #%d does not start where response #%d ended: %r" % (ri + 1, ri, data[max(0, pos - 20):pos + 40])
+            end = data.find(b"\r\n\r\n", pos)
+            if end < 0:
+                break
+            m = re.search(rb"\r\nContent-Length: (\d+)\r\n", data[pos:end + 2])
+            cl = int(m.group(1)) if m else 0
+            pos = end + 4
+            if is_head:
+                if pos < len(data) and not data.startswith(b"HTTP/", pos):
+                    return ("c0: the head of the response to HEAD request #%d is followed by %r: a HEAD response carries no "
+                            "body bytes" % (ri + 1, data[pos:pos + 40]))
+            else:
+                pos += cl
     return None
 
 
